@@ -228,6 +228,8 @@ def check(run):
         return run.finish('proof')
     n = 4000 if thorough else 400
     models = [docgen.gen(rng, ntempl=rng.choice([0, 1, 1, 2, 3, 4] + ([5, 6, 8] if thorough else []))) for _ in range(n)]
+    for M in models[3::5]:
+        M.pad_names = True          # white space around the text of <name> elements is not part of the name
     for M in models[::7]:
         # the order of a location's two labels is free in the XML: sometimes the rate comes first
         for T in M.templates:
@@ -267,6 +269,9 @@ def check(run):
             if any(l.get('rate_first') for T in M.templates for l in T['locs']) and all('location' in e for e in errs):
                 run.fail('a location whose rate label precedes its invariant label is built with the two swapped (and then rejected by the type checker): ' + errs[0][:120],
                          dict(xml=x, errors=errs[:3]), shape='mirror:location-label-order')
+            elif getattr(M, 'pad_names', False):
+                run.fail('a model whose <name> elements carry white space around the name is rejected (the white space is taken for part of the name): ' + errs[0][:120],
+                         dict(xml=x, errors=errs[:3]), shape='mirror:name-white-space')
             else:
                 run.tie_broken('a generated well-formed model is rejected', dict(xml=x[:1500], errors=errs[:3]))
             continue
